@@ -95,6 +95,7 @@ type tkey struct {
 type TermFactory struct {
 	table map[tkey]*Term
 	next  int
+	caseStart int // value of next when the current run of the harness started
 	fresh int
 	ufs   map[string]string // uf name -> declaration
 }
@@ -150,12 +151,19 @@ func (f *TermFactory) key(op Op, w, ew, p1, p2 int, name string, val *big.Int, a
 	return k
 }
 
+// TermBudget bounds the number of terms one run (one case) of a harness may build.
+var TermBudget = 2000000
+
 func (f *TermFactory) mk(op Op, w, ew, p1, p2 int, name string, val *big.Int, args ...*Term) *Term {
 	k := f.key(op, w, ew, p1, p2, name, val, args)
 	if t, ok := f.table[k]; ok {
 		return t
 	}
 	f.next++
+	if TermBudget > 0 && f.next-f.caseStart > TermBudget {
+		f.caseStart = f.next // report once
+		panic(unsupported(fmt.Sprintf("state explosion: more than %d terms built in one run of the harness (symbolic offsets or lengths; reduce the bound)", TermBudget)))
+	}
 	t := &Term{Op: op, Args: args, W: w, EW: ew, Val: val, Name: name, P1: p1, P2: p2, ID: f.next}
 	f.table[k] = t
 	return t
